@@ -473,9 +473,15 @@ class _ChildrenList(_TaskList):
         :raises RuntimeError: if WBS integrity lost (i.e. task with same ID already exists)
         """
         _check_not_none(task, 'Task')
+        # Find the task to insert before (like list.insert) while list is not changed yet
+        others = [t for t in self._list if t != task]
+        if index < 0:
+            index = max(len(others) + index, 0)
+        before = others[index] if index < len(others) else None
+
         task.parent = self.__parent
-        if len(self) > 0:
-            self.move(task, before=self[index])
+        if before is not None:
+            self.move(task, before=before)
 
     def move(self, tasks: Union['Task', Iterable['Task']], before: Optional['Task'] = None,
              after: Optional['Task'] = None) -> None:
